@@ -242,9 +242,15 @@ def _payload_strategy(cls: dict, max_len: int):
     special = [lo, lo + 1, lo + 2, lo + 3, lo + 5, 0x40, 0x41, 0x4F, 0x50, 0x51, 0x100, 0x1FF, 0x200, 0x201, 0x3FF, 0x400, 0x401, 0x7FC, 0x1000, 0x1001, 0x2000 - 1, 0x2000,
                0x3FF0, 0x3FFF, 0x4000, max_len, max_len - 1, max_len - 15, max_len - 511]
     special = sorted({min(max(x, lo), max(lo, max_len)) for x in special})
-    n = st.one_of(st.sampled_from(special), st.integers(lo, min(max_len, lo + 600)), st.integers(lo, max(lo, max_len)),
-                  st.integers(0, max(1, max_len // 512)).map(lambda k: min(max(lo, 512 * k + 1), max(lo, max_len))),
-                  st.integers(0, max(1, max_len // 16)).map(lambda k: min(max(lo, 16 * k + 15), max(lo, max_len))))
+    top = max(lo, max_len)
+
+    def clamp(x: int) -> int:
+        return min(max(lo, x), top)
+
+    n = st.one_of(st.sampled_from(special), st.integers(lo, min(max_len, lo + 600)), st.integers(lo, top),
+                  st.tuples(st.integers(0, max(1, max_len // 512)), st.sampled_from([-1, 0, 0, 1])).map(lambda t: clamp(512 * t[0] + t[1])),
+                  st.tuples(st.integers(0, max(1, max_len // 16)), st.sampled_from([-1, 0, 0, 1, 15])).map(lambda t: clamp(16 * t[0] + t[1])),
+                  st.tuples(st.integers(0, max(1, min(max_len, 4096) // 4)), st.sampled_from([0, 1, 2, 3])).map(lambda t: clamp(4 * t[0] + t[1])))
     return st.fixed_dictionaries({
         "n": n,
         "seed": st.binary(min_size=4, max_size=4),
@@ -351,7 +357,7 @@ def options_strategy(cls: dict, max_len: int = 16384, rich_keys: bool = False):
         entry = st.fixed_dictionaries({"n": st.one_of(st.integers(1, 70), st.sampled_from([1, 3, 4, 5, 16, 17, 255, 256, 1021])),
                                        "seed": st.binary(min_size=4, max_size=4), "dest": _U32})
         # distinct destination addresses (two images for one address make no sense; the recreated configuration names files by address)
-        d["reloc"] = st.one_of(st.none(), st.none(), st.lists(entry, min_size=1, max_size=3, unique_by=lambda e: e["dest"]))
+        d["reloc"] = st.one_of(st.none(), st.lists(entry, min_size=1, max_size=3, unique_by=lambda e: e["dest"]))
     if has(cls, "MixinManifestDigest"):
         d["digest"] = st.sampled_from([None, None, "sha256", "sha384", "sha512", "add", "add"])
     if has(cls, "MixinFcfObsolete"):
@@ -380,7 +386,12 @@ def case_strategy(class_list, max_len: int = 16384):
     by_comp: dict = {}
     for c in class_list:
         by_comp.setdefault(c["comp"], []).append(c)
-    comps = sorted(by_comp)
+    comps = []
+    for comp in sorted(by_comp):
+        c0 = by_comp[comp][0]
+        # the compositions that carry most optional structure (certificates, relocation table, HMAC/key store, encryption) get more cases
+        weight = 1 + (2 if cert_kind(c0) else 0) + (2 if has(c0, "MixinRelocTable") else 0) + (2 if c0["image_type"] == 3 else 0)
+        comps += [comp] * weight
 
     def pick(comp):
         lst = by_comp[comp]
